@@ -1,7 +1,6 @@
 (* C03 proofs, part 2: unread, the loops of scan(), scan() and scanRegex() themselves:
    they never panic, never run out of fuel, and every token they return carries the true
-   position unless an earlier unread crossed a line end (ghost xl) or next() overran the end
-   (ghost over). *)
+   position. *)
 From Verif Require Import Lib.Base Lib.Utf8 Model.Lexer Proofs.LexerPos.
 From Coq Require Import ZifyBool.
 Open Scope Z_scope.
@@ -15,10 +14,11 @@ Notation Norm := (Norm src).
 Notation Inv := (Inv src).
 Notation NormInv := (NormInv src).
 
-Definition Rel (l0 l : lexer) : Prop := xl l = xl l0 /\ offset l0 <= offset l.
+(* the lexer only moves forward (except in unread) *)
+Definition Rel (l0 l : lexer) : Prop := offset l0 <= offset l.
 
 Lemma Rel_refl l : Rel l l.
-Proof. split; [reflexivity|lia]. Qed.
+Proof. unfold Rel; lia. Qed.
 
 Lemma col_add_add p a c : col_add (col_add p a) c = col_add p (a + c).
 Proof. unfold col_add; cbn [fst snd]. f_equal. lia. Qed.
@@ -45,27 +45,27 @@ Lemma nextN l0 l :
   okr (fun l' => NormInv l' /\ Rel l0 l' /\ offset l' = offset l + 1 /\ lpos l' = npos l /\
                  lastTok l' = lastTok l) (next src l).
 Proof.
-  intros Hn (Hx & Ho) Hnz.
+  intros Hn Ho Hnz. unfold Rel in *.
   eapply okr_weaken; [apply next_norm; eassumption|].
-  intros l' (Hn' & Hx' & Ho' & _ & Ht & Hl). unfold Rel. splits; try assumption; try congruence; lia.
+  intros l' (Hn' & Ho' & _ & Ht & Hl). splits; try assumption; lia.
 Qed.
 
 Lemma nextI l0 l :
-  Inv l -> Rel l0 l -> ch l <> 0 \/ getch src (offset l - 2) = 92 ->
+  Inv l -> Rel l0 l ->
   okr (fun l' => Inv l' /\ Rel l0 l' /\ offset l <= offset l' /\ (ch l <> 0 -> offset l' = offset l + 1))
       (next src l).
 Proof.
-  intros Hi (Hx & Ho) Hpre.
+  intros Hi Ho. unfold Rel in *.
   eapply okr_weaken; [apply next_inv; eassumption|].
-  intros l' (Hi' & Hx' & Ho' & Ho1 & _). unfold Rel. splits; try assumption; try congruence; lia.
+  intros l' (Hi' & Ho' & Ho1 & _). splits; try assumption; lia.
 Qed.
 
 Lemma next_then {A} (Q : A -> Prop) l0 l m (K : lexer -> lres A) :
-  Inv l -> Rel l0 l -> m <= offset l -> ch l <> 0 \/ getch src (offset l - 2) = 92 ->
+  Inv l -> Rel l0 l -> m <= offset l ->
   (forall l2, Inv l2 -> Rel l0 l2 -> m <= offset l2 -> okr Q (K l2)) ->
   okr Q (lbind (next src l) K).
 Proof.
-  intros Hi Hr Hm Hpre HK. eapply okr_bind; [apply (nextI l0 l Hi Hr Hpre)|].
+  intros Hi Hr Hm HK. eapply okr_bind; [apply (nextI l0 l Hi Hr)|].
   intros l2 (Hi2 & Hr2 & Ho2 & _). apply HK; try assumption. lia.
 Qed.
 
@@ -74,35 +74,29 @@ Lemma next_then1 {A} (Q : A -> Prop) l0 l (K : lexer -> lres A) :
   (forall l2, Inv l2 -> Rel l0 l2 -> offset l2 = offset l + 1 -> okr Q (K l2)) ->
   okr Q (lbind (next src l) K).
 Proof.
-  intros Hi Hr Hnz HK. eapply okr_bind; [apply (nextI l0 l Hi Hr (or_introl Hnz))|].
+  intros Hi Hr Hnz HK. eapply okr_bind; [apply (nextI l0 l Hi Hr)|].
   intros l2 (Hi2 & Hr2 & _ & Ho2). apply HK; try assumption. exact (Ho2 Hnz).
 Qed.
 
 (* ---- unread ------------------------------------------------------------------------------ *)
 Lemma unread_spec l :
-  W l -> 2 <= offset l -> (xl l = false -> Norm l) -> plain (getch src (offset l - 2)) ->
-  okr (fun l' => W l' /\ offset l' = offset l - 1 /\ (xl l' = false -> Norm l') /\
-                 xl l' = (xl l || (ch l =? 10) || (ch l =? 13)) /\ ch l' = getch src (offset l - 2) /\
-                 over l' = over l)
+  W l -> 2 <= offset l -> Norm l -> plain (getch src (offset l - 2)) ->
+  okr (fun l' => W l' /\ offset l' = offset l - 1 /\ Norm l' /\ ch l' = getch src (offset l - 2))
       (unread src l).
 Proof.
   intros (Hb & Hc) H2 Hn Hpl. unfold unread.
   replace (offset l - 1 - 1) with (offset l - 2) by lia.
   destruct (index_ok src (offset l - 2)) as (c & Hi); [lia|]. rewrite Hi. cbn [of_res lbind].
   pose proof (getch_index _ _ _ Hi) as Hg. rewrite Hg in Hpl.
-  apply okr_ret. cbn [offset ch lpos npos xl over]. splits; try lia; try reflexivity; try congruence.
+  apply okr_ret. cbn [offset ch lpos npos]. splits; try lia; try congruence.
   - split; cbn [offset ch]; [lia|]. replace (offset l - 1 - 1) with (offset l - 2) by lia. congruence.
-  - intros Hx. assert (Hx0 : xl l = false) by lia.
-    assert (Hpc : plain (ch l)) by (unfold plain; lia).
-    destruct (Hn Hx0) as (H1 & Hl & Hnp). unfold LexerPos.Norm; cbn [offset ch lpos npos].
+  - destruct Hn as (H1 & Hl & Hnp). unfold LexerPos.Norm; cbn [offset ch lpos npos].
     pose proof (pos_of_offset_step _ _ _ Hi) as Hs.
     replace (offset l - 2 + 1) with (offset l - 1) in Hs by lia.
     rewrite (adv_plain _ _ Hpl) in Hs.
     replace (offset l - 1 - 1) with (offset l - 2) by lia.
-    splits; [lia| |].
-    + rewrite Hl, Hs, col_add_add. replace (1 + -1) with 0 by lia. apply col_add_0.
-    + rewrite Hnp, (adv_plain _ _ Hpc), col_add_add. replace (1 + -1) with 0 by lia.
-      rewrite col_add_0, (adv_plain _ _ Hpl). congruence.
+    splits; [lia| |exact Hl].
+    rewrite Hl, Hs, col_add_add. replace (1 + -1) with 0 by lia. apply col_add_0.
 Qed.
 
 (* ---- loops that only step over non-zero characters --------------------------------------- *)
@@ -190,7 +184,7 @@ Proof.
   - apply okr_ret. cbn [snd]. splits; try assumption; lia.
   - destruct (hex_digit (ch l) <? 0) eqn:Eh.
     + apply okr_ret. cbn [snd]. splits; try assumption; lia.
-    + eapply okr_bind; [apply (nextI l0 l Hi Hr); left; apply hex_digit_nz; lia|]. intros l1 (Hi1 & Hr1 & Ho1 & _).
+    + eapply okr_bind; [apply (nextI l0 l Hi Hr)|]. intros l1 (Hi1 & Hr1 & Ho1 & _).
       eapply okr_weaken; [apply (IH _ l0 l1 Hi1 Hr1)|]. intros rl (? & ? & ?). splits; try assumption; lia.
 Qed.
 
@@ -200,7 +194,7 @@ Proof.
   induction n as [|n IH]; intros c l0 l Hi Hr; cbn [oct_loop].
   - apply okr_ret. cbn [snd]. splits; try assumption; lia.
   - destruct ((48 <=? ch l) && (ch l <=? 55)) eqn:Eo.
-    + eapply okr_bind; [apply (nextI l0 l Hi Hr); left; lia|]. intros l1 (Hi1 & Hr1 & Ho1 & _).
+    + eapply okr_bind; [apply (nextI l0 l Hi Hr)|]. intros l1 (Hi1 & Hr1 & Ho1 & _).
       eapply okr_weaken; [apply (IH _ l0 l1 Hi1 Hr1)|]. intros rl (? & ? & ?). splits; try assumption; lia.
     + apply okr_ret. cbn [snd]. splits; try assumption; lia.
 Qed.
@@ -223,44 +217,40 @@ Proof.
               okr (SP l0) (parse_string src f q cs l')).
     { intros q cs l' Hi' Hr' Ho'. apply IH; try assumption. lia. }
     assert (Hfin : forall q cs l1, Inv l1 -> Rel l0 l1 -> offset l + 1 <= offset l1 ->
-              ch l1 <> 0 \/ getch src (offset l1 - 2) = 92 ->
               okr (SP l0) (dol l2 <- next src l1; parse_string src f q cs l2)).
-    { intros q cs l1 Hi1 Hr1 Ho1 Hpre1. apply (next_then _ l0 l1 (offset l + 1)); try assumption.
+    { intros q cs l1 Hi1 Hr1 Ho1. apply (next_then _ l0 l1 (offset l + 1)); try assumption.
       intros; apply Hrec; assumption. }
     destruct (negb (ch l =? 92)) eqn:Ebs.
     { apply (next_then1 _ l0 l); try assumption. intros; apply Hrec; try assumption; lia. }
     apply (next_then1 _ l0 l); try assumption. intros l1 Hi1 Hr1 Ho1.
     assert (Ho1' : offset l + 1 <= offset l1) by lia.
-    (* the byte before the current one is the backslash *)
-    assert (Hbs : getch src (offset l1 - 2) = 92).
-    { destruct (Inv_W _ _ Hi) as (_ & Hc). replace (offset l1 - 2) with (offset l - 1) by lia. lia. }
     cbv zeta.
-    destruct (ch l1 =? 110) eqn:E1; [apply Hfin; try assumption; left; lia|].
-    destruct (ch l1 =? 116) eqn:E2; [apply Hfin; try assumption; left; lia|].
-    destruct (ch l1 =? 114) eqn:E3; [apply Hfin; try assumption; left; lia|].
-    destruct (ch l1 =? 97) eqn:E4; [apply Hfin; try assumption; left; lia|].
-    destruct (ch l1 =? 98) eqn:E5; [apply Hfin; try assumption; left; lia|].
-    destruct (ch l1 =? 102) eqn:E6; [apply Hfin; try assumption; left; lia|].
-    destruct (ch l1 =? 118) eqn:E7; [apply Hfin; try assumption; left; lia|].
+    destruct (ch l1 =? 110) eqn:E1; [apply Hfin; assumption|].
+    destruct (ch l1 =? 116) eqn:E2; [apply Hfin; assumption|].
+    destruct (ch l1 =? 114) eqn:E3; [apply Hfin; assumption|].
+    destruct (ch l1 =? 97) eqn:E4; [apply Hfin; assumption|].
+    destruct (ch l1 =? 98) eqn:E5; [apply Hfin; assumption|].
+    destruct (ch l1 =? 102) eqn:E6; [apply Hfin; assumption|].
+    destruct (ch l1 =? 118) eqn:E7; [apply Hfin; assumption|].
     destruct (ch l1 =? 120) eqn:E8.
-    { apply (next_then _ l0 l1 (offset l + 1)); try assumption; [left; lia|]. intros l2 Hi2 Hr2 Ho2.
+    { apply (next_then _ l0 l1 (offset l + 1)); try assumption. intros l2 Hi2 Hr2 Ho2.
       destruct (hex_digit (ch l2) <? 0) eqn:Eh2; [apply okr_ret; split; assumption|].
-      apply (next_then _ l0 l2 (offset l + 1)); try assumption; [left; apply hex_digit_nz; lia|]. intros l3 Hi3 Hr3 Ho3.
-      destruct (hex_digit (ch l3) >=? 0) eqn:Eh3; [apply Hfin; try assumption; left; apply hex_digit_nz; lia|apply Hrec; assumption]. }
+      apply (next_then _ l0 l2 (offset l + 1)); try assumption. intros l3 Hi3 Hr3 Ho3.
+      destruct (hex_digit (ch l3) >=? 0) eqn:Eh3; [apply Hfin; assumption|apply Hrec; assumption]. }
     destruct (ch l1 =? 117) eqn:E9.
-    { apply (next_then _ l0 l1 (offset l + 1)); try assumption; [left; lia|]. intros l2 Hi2 Hr2 Ho2.
+    { apply (next_then _ l0 l1 (offset l + 1)); try assumption. intros l2 Hi2 Hr2 Ho2.
       destruct (hex_digit (ch l2) <? 0) eqn:Eh2; [apply okr_ret; split; assumption|].
-      apply (next_then _ l0 l2 (offset l + 1)); try assumption; [left; apply hex_digit_nz; lia|]. intros l3 Hi3 Hr3 Ho3.
+      apply (next_then _ l0 l2 (offset l + 1)); try assumption. intros l3 Hi3 Hr3 Ho3.
       eapply okr_bind; [apply (hex_loop_spec 7 _ l0 l3 Hi3 Hr3)|].
       intros (r', l4) (Hi4 & Hr4 & Ho4). cbn [snd] in *.
       destruct (negb (valid_rune_of_int r')); [apply okr_ret; split; assumption|].
       apply Hrec; try assumption. lia. }
     destruct ((48 <=? ch l1) && (ch l1 <=? 55)) eqn:E10.
-    { apply (next_then _ l0 l1 (offset l + 1)); try assumption; [left; lia|]. intros l2 Hi2 Hr2 Ho2.
+    { apply (next_then _ l0 l1 (offset l + 1)); try assumption. intros l2 Hi2 Hr2 Ho2.
       eapply okr_bind; [apply (oct_loop_spec 2 _ l0 l2 Hi2 Hr2)|].
       intros (c', l3) (Hi3 & Hr3 & Ho3). cbn [snd] in *.
       apply Hrec; try assumption. lia. }
-    apply Hfin; try assumption. right; exact Hbs.
+    apply Hfin; assumption.
 Qed.
 
 (* ---- the regex body ---------------------------------------------------------------------- *)
@@ -285,7 +275,6 @@ Proof.
     destruct (ch l =? 92) eqn:Ebs.
     + apply (next_then1 _ l0 l); try assumption. intros l1 Hi1 Hr1 Ho1. cbv zeta.
       apply (next_then _ l0 l1 (offset l + 1)); try assumption; try lia.
-      { right. destruct (Inv_W _ _ Hi) as (_ & Hc). replace (offset l1 - 2) with (offset l - 1) by lia. lia. }
       intros l2 Hi2 Hr2 Ho2.
       apply IH; try assumption. lia.
     + apply (next_then1 _ l0 l); try assumption. intros l1 Hi1 Hr1 Ho1.
@@ -293,75 +282,48 @@ Proof.
 Qed.
 
 (* ---- the exponent of a number, with its un-reads ---------------------------------------- *)
-(* a dangling exponent at offset j that is followed by a line end: e or E, an optional sign,
-   then CR or LF *)
-Definition eol (c : Z) : Prop := c = 10 \/ c = 13.
-Definition dangling_eol (j : Z) : Prop :=
-  (getch src j = 101 \/ getch src j = 69) /\
-  (eol (getch src (j + 1)) \/
-   ((getch src (j + 1) = 43 \/ getch src (j + 1) = 45) /\ eol (getch src (j + 2)))).
-
 Lemma scan_exponent_spec fuel l :
   NormInv l -> ch l = 101 \/ ch l = 69 -> len + 2 - offset l <= Z.of_nat fuel ->
-  okr (fun l' => NormInv l' /\ offset l <= offset l' /\ (xl l = true -> xl l' = true) /\
-                 (xl l' = true -> xl l = true \/ (offset l' = offset l /\ dangling_eol (offset l - 1))))
-      (scan_exponent src fuel l).
+  okr (fun l' => NormInv l' /\ offset l <= offset l') (scan_exponent src fuel l).
 Proof.
   intros Hn He Hf. unfold scan_exponent.
   assert (H1 : 1 <= offset l) by (pose proof (NormInv_bounds _ _ Hn); lia).
   assert (Hnz : ch l <> 0) by lia.
   eapply okr_bind; [apply (nextN l l Hn (Rel_refl l) Hnz)|].
-  intros l1 (Hn1 & (Hx1 & _) & Ho1 & _). cbv zeta.
+  intros l1 (Hn1 & _ & Ho1 & _). cbv zeta.
   pose proof (NormInv_W _ _ Hn) as (Hb & Hc).
   pose proof (NormInv_W _ _ Hn1) as (Hb1 & Hc1).
   destruct ((ch l1 =? 43) || (ch l1 =? 45)) eqn:Esg.
   - (* a sign was read *)
-    eapply okr_bind; [apply (nextN l l1 Hn1); [split; [assumption|lia]|lia]|].
-    intros l2 (Hn2 & (Hx2 & _) & Ho2 & _).
-    eapply okr_bind; [apply (skip_digits_spec fuel false l l2 Hn2); [split; [assumption|lia]|lia]|].
-    intros (g, l3) (Hn3 & (Hx3 & _) & Ho3 & _ & Hg). cbn [fst snd] in *.
+    eapply okr_bind; [apply (nextN l l1 Hn1); [unfold Rel; lia|lia]|].
+    intros l2 (Hn2 & _ & Ho2 & _).
+    eapply okr_bind; [apply (skip_digits_spec fuel false l l2 Hn2); [unfold Rel; lia|lia]|].
+    intros (g, l3) (Hn3 & _ & Ho3 & _ & Hg). cbn [fst snd] in *.
     destruct g; cbn [negb].
-    + apply okr_ret. splits; try assumption; try lia; try congruence; try (intros; left; congruence).
+    + apply okr_ret. split; [assumption|lia].
     + destruct Hg as [Hg|(_ & ->)]; [discriminate|].
       pose proof (NormInv_W _ _ Hn2) as Hw2.
       eapply okr_bind.
       { apply (unread_spec l2 Hw2); [lia|apply (NormInv_norm _ _ Hn2)|].
         replace (offset l2 - 2) with (offset l1 - 1) by lia. rewrite <- Hc1. unfold plain; lia. }
-      intros l4 (Hw4 & Ho4 & Hn4 & Hx4 & Hc4 & Hov4).
+      intros l4 (Hw4 & Ho4 & Hn4 & Hc4).
       eapply okr_weaken.
       { apply (unread_spec l4 Hw4); [lia|exact Hn4|].
         replace (offset l4 - 2) with (offset l - 1) by lia. rewrite <- Hc. unfold plain; lia. }
-      intros l5 (Hw5 & Ho5 & Hn5 & Hx5 & _ & Hov5).
-      pose proof (NormInv_W _ _ Hn2) as (_ & Hc2).
-      splits; try lia.
-      { split; [split; [assumption|]; split; [lia|assumption]|].
-        unfold OverOK. rewrite Hov5, Hov4. apply Hn2. }
-      intros Hx5t.
-      destruct (xl l) eqn:Exl; [left; reflexivity|right]. split; [lia|].
-      unfold dangling_eol, eol. rewrite <- Hc.
-      replace (offset l - 1 + 1) with (offset l1 - 1) by lia. rewrite <- Hc1.
-      replace (offset l - 1 + 2) with (offset l2 - 1) by lia. rewrite <- Hc2.
-      replace (offset l2 - 2) with (offset l1 - 1) in Hc4 by lia. rewrite <- Hc1 in Hc4.
-      split; [assumption|]. right. lia.
+      intros l5 (Hw5 & Ho5 & Hn5 & _).
+      split; [split; assumption|lia].
   - (* no sign *)
     cbn [lbind].
-    eapply okr_bind; [apply (skip_digits_spec fuel false l l1 Hn1); [split; [assumption|lia]|lia]|].
-    intros (g, l3) (Hn3 & (Hx3 & _) & Ho3 & _ & Hg). cbn [fst snd] in *.
+    eapply okr_bind; [apply (skip_digits_spec fuel false l l1 Hn1); [unfold Rel; lia|lia]|].
+    intros (g, l3) (Hn3 & _ & Ho3 & _ & Hg). cbn [fst snd] in *.
     destruct g; cbn [negb].
-    + apply okr_ret. splits; try assumption; try lia; try congruence; try (intros; left; congruence).
+    + apply okr_ret. split; [assumption|lia].
     + destruct Hg as [Hg|(_ & ->)]; [discriminate|].
       eapply okr_weaken.
       { apply (unread_spec l1 (conj Hb1 Hc1)); [lia|apply (NormInv_norm _ _ Hn1)|].
         replace (offset l1 - 2) with (offset l - 1) by lia. rewrite <- Hc. unfold plain; lia. }
-      intros l5 (Hw5 & Ho5 & Hn5 & Hx5 & _ & Hov5).
-      splits; try lia.
-      { split; [split; [assumption|]; split; [lia|assumption]|].
-        unfold OverOK. rewrite Hov5. apply Hn1. }
-      intros Hx5t.
-      destruct (xl l) eqn:Exl; [left; reflexivity|right]. split; [lia|].
-      unfold dangling_eol, eol. rewrite <- Hc.
-      replace (offset l - 1 + 1) with (offset l1 - 1) by lia. rewrite <- Hc1.
-      split; [assumption|]. left. lia.
+      intros l5 (Hw5 & Ho5 & Hn5 & _).
+      split; [split; assumption|lia].
 Qed.
 
 End Scan.
